@@ -347,6 +347,61 @@ def r8_selecting_defaults(ctx):
     ctx.need('R8.selecting-defaults', 1)
 
 
+def r9_input_connector(ctx):
+    """R9: the power that enters a fibre (the power its NLI is computed for) is the launch power less ITS input connector loss: where
+    auto-design fills a missing connector loss, `params.con_in` is filled from the configured default con_in and `params.con_out`
+    from the default con_out - each store is traced through the locals to the configuration field it reads"""
+    from ..dataflow import local_defs
+    repo = ctx.repo
+    n_sites = 0
+    for f in repo.module('gnpy.core.network').functions.values():
+        stores = [n for n in walk_no_nested(f.node) if isinstance(n, ast.Assign) and len(n.targets) == 1 and
+                  isinstance(n.targets[0], ast.Attribute) and n.targets[0].attr in ('con_in', 'con_out')]
+        if not stores:
+            continue
+        defs = local_defs(f.node)
+        for st in stores:
+            fld = st.targets[0].attr
+            seen, todo, srcs = set(), [st.value], set()
+            while todo:
+                e = todo.pop()
+                for x in ast.walk(e):
+                    if isinstance(x, ast.Attribute) and x.attr in ('con_in', 'con_out'):
+                        srcs.add(x.attr)
+                    elif isinstance(x, ast.Constant) and x.value in ('con_in', 'con_out'):
+                        srcs.add(x.value)
+                    elif isinstance(x, ast.Name) and x.id not in seen:
+                        seen.add(x.id)
+                        todo.extend(dv for _, dv in defs.get(x.id, []) if isinstance(dv, ast.AST))
+                        if x.id in f.params and not defs.get(x.id):
+                            # a parameter: what the callers in this module hand over for it
+                            pos = f.params.index(x.id)
+                            for g in repo.module('gnpy.core.network').functions.values():
+                                gdefs = None
+                                for c in ast.walk(g.node):
+                                    if isinstance(c, ast.Call) and isinstance(c.func, ast.Name) and c.func.id == f.name:
+                                        a = c.args[pos] if pos < len(c.args) and not any(isinstance(y, ast.Starred) for y in c.args) else \
+                                            next((k.value for k in c.keywords if k.arg == x.id), None)
+                                        if a is None:
+                                            continue
+                                        gdefs = gdefs or local_defs(g.node)
+                                        for y in ast.walk(a):
+                                            if isinstance(y, ast.Attribute) and y.attr in ('con_in', 'con_out'):
+                                                srcs.add(y.attr)
+                                            elif isinstance(y, ast.Name):
+                                                for _, dv in gdefs.get(y.id, []):
+                                                    if isinstance(dv, ast.AST):
+                                                        srcs.update(z.attr for z in ast.walk(dv) if isinstance(z, ast.Attribute) and z.attr in ('con_in', 'con_out'))
+            if not srcs:
+                continue        # not filled from a connector field at all (a literal, a parameter): nothing to compare
+            n_sites += 1
+            ctx.check('R9.input-connector', f'{site(f, st)} {fld}', srcs == {fld}, key(f, f'connector|{fld}'),
+                      f'{ast.unparse(st.targets[0])} is filled from the configured {sorted(srcs)}: with default connector losses that differ '
+                      'between input and output the fibre is entered with another power than the configured one, and its NLI is not the '
+                      'closed form for the configured span', ast.unparse(st)[:160])
+    ctx.need('R9.input-connector', 2)
+
+
 from ..memo import rule_for as _memo_rule
 
 RULES_MEMO = ('Rm.memo', _memo_rule('C03', 'the NLI of another fibre configuration or spectrum would be applied'))
@@ -356,4 +411,4 @@ from ..presence import rule_for as _presence_rule
 
 RULES_PRESENCE = ('Rp.presence', _presence_rule('C03', 'a fibre given an explicit 0 would get the default model instead'))
 
-RULES = [('R5.order-independence', r5_sorted), ('R1.closed-form', r1_closed_form), ('R2.combination', r2_combination), ('R3.coefficients', r3_coefficients), RULES_MEMO, RULES_PRESENCE, ('Rs.sorted-abscissa', rs_sorted), ('R6.applied', r6_applied), ('Rn.arg-roles', rn_arg_roles), ('R7.fibre-inputs', r7_fibre_inputs), ('Rs2.sorted-abscissa', rs_fibre_tables), ('R8.selecting-defaults', r8_selecting_defaults)]
+RULES = [('R5.order-independence', r5_sorted), ('R1.closed-form', r1_closed_form), ('R2.combination', r2_combination), ('R3.coefficients', r3_coefficients), RULES_MEMO, RULES_PRESENCE, ('Rs.sorted-abscissa', rs_sorted), ('R6.applied', r6_applied), ('Rn.arg-roles', rn_arg_roles), ('R7.fibre-inputs', r7_fibre_inputs), ('Rs2.sorted-abscissa', rs_fibre_tables), ('R8.selecting-defaults', r8_selecting_defaults), ('R9.input-connector', r9_input_connector)]
